@@ -335,7 +335,7 @@ var subTable = evid.Register("table", runTable)
 
 func TestPropTable(t *testing.T) {
 	rapid.Check(t, func(t *rapid.T) {
-		c := TableCase{NCols: rapid.IntRange(0, 40).Draw(t, "ncols"), Rows: rapid.SampledFrom([]int{0, 1, 254, 255, 256, 510, 511, 1000, 70000}).Draw(t, "rows"), PK: []int{}}
+		c := TableCase{NCols: rapid.IntRange(0, 40).Draw(t, "ncols"), Rows: rapid.SampledFrom([]int{0, 1, 254, 255, 256, 510, 511, 1000, 70000, 261120, 261121, 600000}).Draw(t, "rows"), PK: []int{}}
 		if c.NCols > 0 {
 			for i, n := 0, rapid.IntRange(0, 3).Draw(t, "npk"); i < n; i++ {
 				c.PK = append(c.PK, rapid.IntRange(0, c.NCols-1).Draw(t, "pk"))
